@@ -103,7 +103,7 @@ type vfVLType struct {
 	dt   Datatype
 	// mk returns the Go value to Write for the given element lengths (in base elements or
 	// bytes for strings) and the expected raw bytes of each element.
-	mk func(lens []int, content int) (interface{}, [][]byte)
+	mk   func(lens []int, content int) (interface{}, [][]byte)
 	base core.DatatypeClass
 	bsz  uint32
 }
@@ -161,7 +161,7 @@ func vfVLTypes() []vfVLType {
 		for e, l := range lens {
 			v[e] = make([]int64, l)
 			for j := range v[e] {
-				v[e][j] = int64(-(e*1000+j+1)) << 33
+				v[e][j] = int64(-(e*1000 + j + 1)) << 33
 				raw[e] = binary.LittleEndian.AppendUint64(raw[e], uint64(v[e][j]))
 			}
 		}
@@ -226,6 +226,12 @@ type vfC12Case struct {
 	Chunked bool
 	Lens    []int
 	Content int
+	// session shape: First (if non-nil) is written to the same dataset before Lens
+	// (overwrite); After are further variable-length datasets created and written in the
+	// same session after /v; Plain adds a fixed-size dataset created and written after /v.
+	First []int
+	After [][]int
+	Plain bool
 }
 
 func (c vfC12Case) String() string {
@@ -237,7 +243,17 @@ func (c vfC12Case) String() string {
 	if len(c.Lens) > 6 {
 		ls = fmt.Sprintf("%dx%d", len(c.Lens), c.Lens[0])
 	}
-	return fmt.Sprintf("%s sb%d %s lens=%s content%d", c.T.name, c.SB, lay, ls, c.Content)
+	tail := ""
+	if c.First != nil {
+		tail += fmt.Sprintf(" first=%v", c.First)
+	}
+	if c.After != nil {
+		tail += fmt.Sprintf(" after=%v", c.After)
+	}
+	if c.Plain {
+		tail += " plain-neighbour"
+	}
+	return fmt.Sprintf("%s sb%d %s lens=%s content%d%s", c.T.name, c.SB, lay, ls, c.Content, tail)
 }
 
 // vfC12Run returns the list of problems (finding-key suffixes) for one case.
@@ -264,11 +280,48 @@ func vfC12Run(dir string, c vfC12Case) (problems []string, detail map[string]any
 		detail["error"] = err.Error()
 		return []string{"create-dataset-rejected"}, detail
 	}
+	if c.First != nil {
+		first := append([]int{}, c.First...)
+		for len(first) < n {
+			first = append(first, 3)
+		}
+		fd, _ := c.T.mk(first[:n], 0)
+		if err := ds.Write(fd); err != nil {
+			fw.Close()
+			detail["error"] = err.Error()
+			return []string{"first-write-rejected"}, detail
+		}
+	}
 	data, raws := c.T.mk(c.Lens, c.Content)
 	if err := ds.Write(data); err != nil {
 		fw.Close()
 		detail["error"] = err.Error()
 		return []string{"write-rejected"}, detail
+	}
+	for k, al := range c.After {
+		ads, err := fw.CreateDataset(fmt.Sprintf("/w%d", k), c.T.dt, []uint64{uint64(len(al))})
+		if err != nil {
+			fw.Close()
+			detail["error"] = err.Error()
+			return []string{"later-create-rejected"}, detail
+		}
+		ad, _ := c.T.mk(al, 2)
+		if err := ads.Write(ad); err != nil {
+			fw.Close()
+			detail["error"] = err.Error()
+			return []string{"later-write-rejected"}, detail
+		}
+	}
+	if c.Plain {
+		pds, err := fw.CreateDataset("/plain", Int32, []uint64{4})
+		if err == nil {
+			err = pds.Write([]int32{-1, -1, -1, -1})
+		}
+		if err != nil {
+			fw.Close()
+			detail["error"] = err.Error()
+			return []string{"plain-neighbour-rejected"}, detail
+		}
 	}
 	if err := fw.Close(); err != nil {
 		detail["error"] = err.Error()
@@ -462,21 +515,21 @@ func TestVerif_C12(t *testing.T) {
 	for _, l := range lists {
 		for _, sb := range []uint8{2, 3} {
 			for _, ch := range []bool{false, true} {
-				cases = append(cases, vfC12Case{types[0], sb, ch, l, 0})
+				cases = append(cases, vfC12Case{T: types[0], SB: sb, Chunked: ch, Lens: l})
 			}
 		}
 	}
 	// content classes on a few lists
 	for _, content := range []int{1, 2} {
 		for _, l := range [][]int{{1}, {8}, {9, 0, 7}, {4064, 2}, {65537}} {
-			cases = append(cases, vfC12Case{types[0], 2, false, l, content})
+			cases = append(cases, vfC12Case{T: types[0], SB: 2, Lens: l, Content: content})
 		}
 	}
 	// numeric base types: lengths in elements
 	for _, ty := range types[1:] {
 		for _, l := range [][]int{{0}, {1}, {2}, {0, 1}, {3, 0, 2}, {1016}, {1020, 1}, {509, 509}, {20000}} {
 			for _, ch := range []bool{false, true} {
-				cases = append(cases, vfC12Case{ty, 2, ch, l, 0})
+				cases = append(cases, vfC12Case{T: ty, SB: 2, Chunked: ch, Lens: l})
 			}
 		}
 	}
@@ -494,10 +547,26 @@ func TestVerif_C12(t *testing.T) {
 			for i := range l {
 				l[i] = ln
 			}
-			cases = append(cases, vfC12Case{types[0], 2, false, l, 0})
+			cases = append(cases, vfC12Case{T: types[0], SB: 2, Lens: l})
 		}
 	}
-	r.Rule("variable-length strings: all element lists of length 1..3 over the length alphabet {0,1,7,8,9,4063,4064,4065,4072,4080,4081,65537} x superblock {2,3} x {contiguous, chunked}; content classes (ASCII, embedded NUL, multi-byte UTF-8); six numeric base types x 9 length lists x 2 layouts; roll-over families of 254..257 (thorough up to 10^4) equal elements; after reopen the datatype must be variable-length of the written base type, the library's element readers must return the elements or an error, and an independent decoder resolves every element reference into independently parsed heap collections (declared size, object sizes, alignment, unique indices, free-space record); every case is distinct")
+	// session families: /v followed by further variable-length writes in the same session
+	// (sharing or not sharing /v's heap collection), /v overwritten, and a fixed-size
+	// neighbour allocated behind /v's collections
+	sess := [][]int{{1}, {0, 7}, {9, 8, 1}, {2000}, {4064}, {5000}, {65537}}
+	for _, ty := range []vfVLType{types[0], types[1]} {
+		for _, ch := range []bool{false, true} {
+			for _, l := range sess {
+				cases = append(cases, vfC12Case{T: ty, SB: 2, Chunked: ch, Lens: l, Plain: true})
+				for _, a := range sess {
+					cases = append(cases, vfC12Case{T: ty, SB: 2, Chunked: ch, Lens: l, After: [][]int{a}})
+					cases = append(cases, vfC12Case{T: ty, SB: 2, Chunked: ch, Lens: l, First: a})
+					cases = append(cases, vfC12Case{T: ty, SB: 2, Chunked: ch, Lens: l, After: [][]int{a, {3}}, Plain: true})
+				}
+			}
+		}
+	}
+	r.Rule("variable-length strings: all element lists of length 1..3 over the length alphabet {0,1,7,8,9,4063,4064,4065,4072,4080,4081,65537} x superblock {2,3} x {contiguous, chunked}; content classes (ASCII, embedded NUL, multi-byte UTF-8); six numeric base types x 9 length lists x 2 layouts; roll-over families of 254..257 (thorough up to 10^4) equal elements; after reopen the datatype must be variable-length of the written base type, the library's element readers must return the elements or an error, and an independent decoder resolves every element reference into independently parsed heap collections (declared size, object sizes, alignment, unique indices, free-space record); every case is distinct; session families: 7 length lists for /v x {a later variable-length dataset with each of the 7 lists, /v written twice (first with each of the 7 lists), two later datasets plus a fixed-size neighbour, a fixed-size neighbour only} x {strings, int32 sequences} x 2 layouts")
 	vkit.ParallelFor(len(cases), func(i int) {
 		if r.Expired() {
 			r.Cap("time budget")
